@@ -1188,7 +1188,7 @@ func (c01) Gen(rng *rand.Rand, tier string, emit func(string)) {
 		"parse gb0 " + h("LOCUS       A 1 bp\nFEATURES    x\n                     /db_xref=\"taxon:99999999999999999999\"\nORIGIN\n        1 ac gt a b c d e f g\n//"),
 		"parse gb0 " + h("LOCUS       A 1 bp\nFEATURES    x\n                     /db_xref=\"taxon:-12\"\nORIGIN\n//\nLOCUS        1 bp\nFEATURES    x\n                     /db_xref=\"taxon:+7\nORIGIN\n//"),
 		"parse em0 " + h("//"), "parse em0 -", "parse em1 " + h("ID   A;B\nFH   k\nFH\nFT   x\nFT                   /db_xref=\"taxon:\"\n     ac gt\n     acgt       4\n//\n//"),
-		"kseq fa " + h(">a d e\nACGT\nAC\n>b\nGG\n"), "kseq fq " + h("@a d\nACGT\n+\n@+II\n@b\nGG\n+\n+I\n"),
+		"kseq fa " + h(">a d e\nACGT\nAC\n>b\nGG\n"), "kseq fa " + h(">c d\r\nACGT\r\n"), "kseq fa " + h(">c  d \t>e\r\nAC GT\r\n\r\n>x\nA\n"), "kseq fq " + h("@a d\nACGT\n+\n@+II\n@b\nGG\n+\n+I\n"),
 	} {
 		emit(c)
 	}
@@ -1653,9 +1653,7 @@ func (c01) Exec(c string) (string, []Fail) {
 		stat("op:kseq:" + w[1])
 		f, _ := c01Format(map[string]string{"fa": "fa", "fq": "fq1"}[w[1]])
 		want, wf := c01Ref(f, data)
-		// kseq and the Go parser define the definition differently when several blanks follow the id, and kseq keeps
-		// blanks inside sequence lines: restrict to the common ground
-		if !wf || len(want) == 0 || bytes.Contains(data, []byte("  ")) || bytes.Contains(data, []byte("\t")) || bytes.Contains(data, []byte(" \n")) || bytes.Contains(data, []byte(" \r")) || bytes.Contains(data, []byte("\n\n")) || bytes.Contains(data, []byte("\n\r")) || c01SeqBlank(data) {
+		if !wf || len(want) == 0 {
 			stat("kseq-skipped")
 			return "agree", nil
 		}
@@ -1700,15 +1698,4 @@ func (c01) Exec(c string) (string, []Fail) {
 		return "agree", fails
 	}
 	return "bad-op", nil
-}
-
-// a blank inside a sequence line (kseq keeps it)
-func c01SeqBlank(data []byte) bool {
-	ls, _ := c01Lines(data)
-	for _, l := range ls {
-		if l != "" && l[0] != '>' && l[0] != '@' && l[0] != '+' && strings.ContainsAny(l, " \t") {
-			return true
-		}
-	}
-	return false
 }
